@@ -78,3 +78,18 @@ Example mach_3 : mach_step (Some (set_mach_clock m2 5000)) (mk_pt 5 6) 200 = GOk
 Example mach_4 : mach_step (Some (set_mach_emit m0 false)) (mk_pt 3 4) 200 = GPanic. Proof. run. Qed.
 Example mach_5 : mach_step (Some (set_mach_hook m0 false)) (mk_pt 3 4) 200
   = GOk (Some (set_mach_hook_log (set_mach_hook m1 false) []), ErrNew "E"). Proof. run. Qed.
+(* disp.route (go test transcript: true [9] 0 / true [] 0 / false [] 0 / true [4] 0 / true [] 1 / PANIC):
+   external interface object, sum interface + comma-ok assertion, break in a switch *)
+Definition snk (mode : Z) (calls : list sink_call) : sink := mk_sink mode ErrNil calls.
+Example disp_1 : disp_route (Some (mk_disp (snk 1 []) 0)) (shape_sq (Some (mk_sq 3))) 0
+  = GOk (Some (mk_disp (snk 1 [sink_call_Put 9]) 0), true). Proof. run. Qed.
+Example disp_2 : disp_route (Some (mk_disp (snk 2 []) 0)) (shape_sq (Some (mk_sq 3))) 0
+  = GOk (Some (mk_disp (snk 2 []) 0), true). Proof. run. Qed.
+Example disp_3 : disp_route (Some (mk_disp (snk 1 []) 0)) (shape_rc (Some (mk_rc 2 5))) 1
+  = GOk (Some (mk_disp (snk 1 []) 0), false). Proof. run. Qed.
+Example disp_4 : disp_route (Some (mk_disp (snk 1 [sink_call_Put 9]) 0)) (shape_sq (Some (mk_sq 4))) 1
+  = GOk (Some (mk_disp (snk 1 [sink_call_Put 9; sink_call_Put 4]) 0), true). Proof. run. Qed.
+Example disp_5 : disp_route (Some (mk_disp (snk 1 []) 0)) (shape_rc (Some (mk_rc 2 5))) 7
+  = GOk (Some (mk_disp (snk 1 []) 1), true). Proof. run. Qed.
+(* a nil shape: the method call behind the interface panics *)
+Example disp_6 : disp_route (Some (mk_disp (snk 1 []) 0)) shape_nil 0 = GPanic. Proof. run. Qed.
